@@ -27,7 +27,7 @@ P2 = "behave.tag_expression.parser:"
 
 # ---------------------------------------------------------------------------------------
 # auto-detection helpers (C08)
-contract(B + "_any_word_is_keyword", props=["C08"], params={"words": "seq:str", "keywords": "seq:str"},
+contract(B + "_any_word_is_keyword", props=["C08", "C07"], params={"words": "seq:str", "keywords": "seq:str"},
          result="bool", pure=True,
          loops=[Loop(invariant={"no-earlier-keyword-is-a-word":
                                 "forall(lambda k, w: implies(0 <= k < _i and 0 <= w < len(words), keywords[k] != words[w]))"}),
@@ -35,7 +35,7 @@ contract(B + "_any_word_is_keyword", props=["C08"], params={"words": "seq:str", 
                                 "forall(lambda w: implies(0 <= w < _i, keyword != words[w]))"})],
          ensures={"some-word-equals-some-keyword":
                   "result == exists(lambda k, w: 0 <= k < len(keywords) and 0 <= w < len(words) and keywords[k] == words[w])"})
-contract(B + "_any_word_contains_keyword", props=["C08"], params={"words": "seq:str", "keywords": "seq:str"},
+contract(B + "_any_word_contains_keyword", props=["C08", "C07"], params={"words": "seq:str", "keywords": "seq:str"},
          result="bool", pure=True,
          loops=[Loop(invariant={"no-earlier-keyword-occurs-in-a-word":
                                 "forall(lambda k, w: implies(0 <= k < _i and 0 <= w < len(words), not str_in(keywords[k], words[w])))"}),
@@ -43,7 +43,7 @@ contract(B + "_any_word_contains_keyword", props=["C08"], params={"words": "seq:
                                 "forall(lambda w: implies(0 <= w < _i, not str_in(keyword, words[w])))"})],
          ensures={"some-word-contains-some-keyword":
                   "result == exists(lambda k, w: 0 <= k < len(keywords) and 0 <= w < len(words) and str_in(keywords[k], words[w]))"})
-contract(B + "_any_word_starts_with", props=["C08"], params={"words": "seq:str", "prefixes": "seq:str"},
+contract(B + "_any_word_starts_with", props=["C08", "C07"], params={"words": "seq:str", "prefixes": "seq:str"},
          result="bool", pure=True,
          loops=[Loop(invariant={"no-word-starts-with-an-earlier-prefix":
                                 "forall(lambda k, w: implies(0 <= k < _i and 0 <= w < len(words), not str_startswith(words[w], prefixes[k])))"})],
@@ -55,7 +55,7 @@ contract("lib:glob.has_magic", trusted=True, pos_params=["text"], pure=True, res
 contract(M2 + "Matcher.contains_wildcards", props=["C07", "C08"], params={"text": "str"}, result="bool", pure=True,
          callsites={"glob.has_magic": "lib:glob.has_magic"},
          ensures={"wildcards-iff-glob-magic": "result == has_magic(text)"})
-contract(B + "_any_word_contains_wildcards", props=["C08"], params={"words": "seq:str"}, result="bool", pure=True,
+contract(B + "_any_word_contains_wildcards", props=["C08", "C07"], params={"words": "seq:str"}, result="bool", pure=True,
          callsites={"_MatcherV2.contains_wildcards": M2 + "Matcher.contains_wildcards"},
          ensures={"some-word-has-a-wildcard": "result == exists(lambda w: 0 <= w < len(words) and has_magic(words[w]))"})
 
@@ -94,7 +94,7 @@ shape("TagExpression", ands="seq:seq:str", limits="dict:int")
 # a stored literal x is true for the element's tags iff  x = "-t" and t is absent, or x = "t" and t is present
 macro("v1_has", ["tags", "t"], "exists(lambda k: 0 <= k < len(tags) and tags[k] == t)")
 macro("v1_lit", ["x", "tags"], "ite(str_startswith(x, '-'), not v1_has(tags, x[1:]), v1_has(tags, x))")
-contract(V1 + "TagExpression.check", props=["C08"], params={"self": "ref:TagExpression", "tags": "seq:str"},
+contract(V1 + "TagExpression.check", props=["C08", "C09"], params={"self": "ref:TagExpression", "tags": "seq:str"},
          self_classes=["TagExpression"], result="bool", pure=True,
          ensures={
              "and-of-ors-of-possibly-negated-tags":
@@ -166,7 +166,7 @@ prop("C07", level="other", bounded=[],
 
 # ---------------------------------------------------------------------------------------
 # C08: spelling of a v1 tag (string surgery as uninterpreted functions: which rule applies to which spelling)
-contract(V1 + "TagExpression.normalize_tag", props=["C08"], params={"tag": "str"}, result="str", pure=True,
+contract(V1 + "TagExpression.normalize_tag", props=["C08", "C09"], params={"tag": "str"}, result="str", pure=True,
          ensures={
              "leading-at-sign-is-optional": "implies(tag.strip().startswith('@'), result == tag.strip()[1:])",
              "minus-at-and-tilde-at-both-negate":
